@@ -13,7 +13,7 @@ CONSTANTS
   AllowForeignDelete = TRUE
   AllowForeignShorten = TRUE
   MaxHist = 14
-INVARIANTS MutualExclusion OnlyOwnerReleases EmitAll
+INVARIANTS TypeOK MutualExclusion OnlyOwnerReleases NeverTainted EmitAll
 VIEW view
 SYMMETRY Sym
 CHECK_DEADLOCK FALSE
